@@ -30,7 +30,11 @@ contract("uxarray.grid.connectivity.get_face_node_partitions", trusted=True, pro
              "n_part >= 0",
              # change_ind: block boundaries 0 = c[0] <= c[1] <= ... <= c[n_part] = n_f
              "result[0][0] == 0 and result[0][n_part] == n_f",
-             "forall(0, n_part, lambda p: result[0][p] <= result[0][p + 1])",
+             "forall(0, n_part + 1, lambda p: 0 <= result[0][p] and result[0][p] <= n_f)",
+             "forall(0, n_part + 1, 0, n_part + 1, lambda p, q: implies(p <= q, result[0][p] <= result[0][q]))",
+             # sizes of the blocks are admissible corner counts (they are values of n_nodes_per_face)
+             "forall(0, n_part, lambda p: result[0][p] < result[0][p + 1])",
+             "forall(0, n_part, lambda p: n_nodes_per_face[result[1][result[0][p]]] == result[2][p])",
              # sorted_ind is a permutation of the faces (pinv its inverse) ...
              "forall(0, n_f, lambda t: 0 <= result[1][t] and result[1][t] < n_f and pinv[result[1][t]] == t)",
              "forall(0, n_f, lambda f: 0 <= pinv[f] and pinv[f] < n_f and result[1][pinv[f]] == f)",
@@ -60,6 +64,14 @@ for _d in (("n_node",), ("time", "n_node")):
              ensures=[
                  # from the property: for each face and leading index, the reduction over exactly that face's corner nodes
                  _q.format(b=f"eqr(result[{_lead}f], {_spec})")],
+             # proof staging (ghost code, anchored at the scatter statement): what the scatter did to the faces of this block
+             # and that it left the faces of earlier blocks alone
+             asserts={
+                 "before:result[..., face_inds] = aggregation_par": ["let res0 = snapshot(result)"],
+                 "after:result[..., face_inds] = aggregation_par": [
+                     "assert " + _q.format(b=f"implies(start <= pinv[f] and pinv[f] < end, eqr(result[{_lead}f], aggregation_par[{_lead}pinv[f] - start]))"),
+                     "assert " + _q.format(b=f"implies(pinv[f] < start, eqr(result[{_lead}f], res0[{_lead}f]))"),
+                 ]},
              loops={0: loop(counter="p", invariants=[
                  _q.format(b=f"implies(pinv[f] < change_ind[p], eqr(result[{_lead}f], {_spec}))"),
                  "0 <= p and p <= n_part"])},
